@@ -322,7 +322,92 @@ func suiteText(tier string, seed uint64, model string) *Report {
 			}
 		}
 	}
+	// expressions that only the reader produces (the bracket wildcard '#', bracketed children) and
+	// float constants in exponent form: print, read back, print again, evaluate as the original
+	texts := []string{"$..[*]", "$.a..[*].b", "$[*]..[*]", "$..[*][0]", "@..[*]", "$.a[*]", "$['a'][*]..b", "$[?(@..[*] == 1)]",
+		"$..[*]..[*]", "$[?(@.a[*] == 2)].a", "$..['a']", "$..[1]", "$..[0,1]", "$..[1:2]", "$.a.*", "$..*"}
+	tdata := []any{
+		map[string]any{"a": []any{int64(1), map[string]any{"b": int64(2), "a": []any{int64(2), int64(3)}}}, "b": []any{[]any{int64(1)}}},
+		[]any{map[string]any{"a": []any{int64(2)}}, []any{int64(1), []any{int64(7), int64(8)}}, int64(1)},
+	}
+	for _, t := range texts {
+		rep.Evaluations++
+		out := safe(func() string {
+			x, err := jp.ParseString(t)
+			if err != nil {
+				return "E0 " + err.Error()
+			}
+			for _, form := range []string{"String", "BracketString"} {
+				s1 := x.String()
+				if form == "BracketString" {
+					s1 = x.BracketString()
+					if strings.Contains(s1, "[..]") {
+						continue // the recorded BracketString finding
+					}
+				}
+				y, err := jp.ParseString(s1)
+				if err != nil {
+					return "E " + form + " " + s1 + ": " + err.Error()
+				}
+				s2 := y.String()
+				if form == "BracketString" {
+					s2 = y.BracketString()
+				}
+				if s2 != s1 {
+					return "P " + s1 + " -> " + s2
+				}
+				for _, d := range tdata {
+					a, b := showList(x.Get(d)), showList(y.Get(d))
+					if !sameList(a, b, false) {
+						return "V " + s1 + ": " + strings.Join(b, " ; ") + " != " + strings.Join(a, " ; ")
+					}
+				}
+			}
+			return "ok"
+		})
+		if out != "ok" {
+			rep.Add(Disagreement{Case: t, Where: "Expr.String (parsed expression)", Kind: "impl-law:expr-roundtrip", Impl: out, Spec: "reads back, prints identically, selects the same elements"})
+		}
+	}
+	for _, k := range []float64{1e6, 8.64e7, 1e21, 1.5e6, 1e-7, 123456789, -1e6, 2.5e10, 1e5, 999999, 1e15, 1e16, 0.000001, 5e-324, 1.7976931348623157e308} {
+		for _, op := range []func(l, r *jp.Equation) *jp.Equation{jp.Eq, jp.Lt, jp.Gte} {
+			e := op(jp.Get(jp.A().C("a")), jp.ConstFloat(k))
+			for where, text := range map[string]string{"Filter.String": e.Filter().String(), "Script.String": e.Script().String()} {
+				rep.Evaluations++
+				out := safe(func() string {
+					var m func(any) bool
+					var s2 string
+					if where == "Filter.String" {
+						f, err := jp.NewFilter(text)
+						if err != nil {
+							return "E " + err.Error()
+						}
+						m, s2 = f.Match, f.String()
+					} else {
+						sc, err := jp.NewScript(text)
+						if err != nil {
+							return "E " + err.Error()
+						}
+						m, s2 = sc.Match, sc.String()
+					}
+					if s2 != text {
+						return "P " + s2
+					}
+					for _, v := range []any{k, k * 2, k / 2, int64(5), -k, "x"} {
+						d := map[string]any{"a": v}
+						if m(d) != e.Filter().Match(d) {
+							return fmt.Sprintf("V differs on %v", v)
+						}
+					}
+					return "ok"
+				})
+				if out != "ok" {
+					rep.Add(Disagreement{Case: fmt.Sprint(k), Where: where + " (float constant)", Kind: "impl-law:equation-roundtrip", Impl: out, Spec: "reads back, prints identically, matches the same values", Detail: text})
+				}
+			}
+		}
+	}
 	rep.Distinct = len(distinct)
-	rep.Rule = "string literals: all 1-byte and 896 2-byte ASCII strings through jp.AppendString (both quotes) vs the Coq model, and as a child key through ParseString(String()); expressions: seeded paths whose keys mix quotes, backslashes, control, punctuation and non-ASCII characters, String() and BracketString() parsed back, printed again (must be identical) and evaluated (must equal the denotation of the ORIGINAL path); equations: seeded operator trees of depth <= 4 through Equation/Script/Filter String(), parsed back, printed again and evaluated (must equal the denotation of the ORIGINAL tree); non-trivial = distinct printed texts"
+	rep.Rule = "parsed-only expressions (bracket wildcard after a descent etc.) and float constants in exponent form: print-parse-print-evaluate laws; string literals: all 1-byte and 896 2-byte ASCII strings through jp.AppendString (both quotes) vs the Coq model, and as a child key through ParseString(String()); expressions: seeded paths whose keys mix quotes, backslashes, control, punctuation and non-ASCII characters, String() and BracketString() parsed back, printed again (must be identical) and evaluated (must equal the denotation of the ORIGINAL path); equations: seeded operator trees of depth <= 4 through Equation/Script/Filter String(), parsed back, printed again and evaluated (must equal the denotation of the ORIGINAL tree); non-trivial = distinct printed texts"
 	return rep
 }
